@@ -94,7 +94,13 @@ class ReplayBuffer[StateType: AbstractPolicyState, ActType, ObsType, MaskType](
         dones = self.dones.at[idx].set(done)
         timeouts = self.timeouts.at[idx].set(timeout)
 
+        # Only `position % size` and `min(position, size)` are ever read: once the
+        # buffer is full keep the counter in [size, 2 * size) so that it cannot
+        # overflow int32 (and turn `current_size` negative) on long runs.
         new_position = self.position + 1
+        new_position = jnp.where(
+            new_position >= 2 * self.size, new_position - self.size, new_position
+        )
 
         where_fns = [
             lambda rb: rb.position,
